@@ -113,7 +113,7 @@ def subterms(e, acc):
     if isinstance(e, str) or not e or not isinstance(e[0], str):
         return
     h = e[0]
-    if h in ('tt', 'N', 'var', 'const'):
+    if h in ('tt', 'N', 'R', 'var', 'const'):
         return
     if h in ('aln', 'amn', 'exn'):
         kids = list(e[1])
